@@ -61,6 +61,29 @@ Proof.
   intro H. inversion H; subst. unfold notify, signal, emit, with_events. cbn [events]. eexists. reflexivity.
 Qed.
 Print Assumptions C09_set_signals.
+(* RENAME and RENAMENX signal both names (they used to signal the source name twice and never the
+   destination: repaired) *)
+Theorem C09_rename_signals_both : forall k dst now d d',
+  bytes_eqb k dst = false -> api_rename k dst now d = (false, d') ->
+  exists rest, events d' = EvNotify (PRename k dst) :: EvSignal dst :: EvSignal k :: rest.
+Proof.
+  intros k dst now d d' Hne. unfold api_rename.
+  destruct (write_key k None now d) as [[m|] d1]; [|discriminate]. rewrite Hne.
+  destruct (write_key dst None now d1) as [[dm|] d2].
+  - intro H. inversion H; subst. unfold notify, signal, emit, with_events. cbn [events]. eexists. reflexivity.
+  - unfold alloc_key. intro H. inversion H; subst. unfold notify, signal, emit, with_events. cbn [events]. eexists. reflexivity.
+Qed.
+Print Assumptions C09_rename_signals_both.
+Theorem C09_renamenx_signals_both : forall k dst now d d',
+  api_renamenx k dst now d = (0, d') ->
+  exists rest, events d' = EvNotify (PRename k dst) :: EvSignal dst :: EvSignal k :: rest.
+Proof.
+  intros k dst now d d'. unfold api_renamenx.
+  destruct (write_key dst None now d) as [[dm|] d1]; [discriminate|].
+  destruct (write_key k None now d1) as [[m|] d2]; [|discriminate].
+  unfold alloc_key. intro H. inversion H; subst. unfold notify, signal, emit, with_events. cbn [events]. eexists. reflexivity.
+Qed.
+Print Assumptions C09_renamenx_signals_both.
 Definition is_signal (e : event) : bool := match e with EvSignal _ => true | _ => false end.
 Theorem C09_del_never_signals : forall ks now d,
   filter is_signal (events (snd (api_del ks now d))) = filter is_signal (events d).
